@@ -234,32 +234,28 @@ def ps(s, o=_PLAIN):
 
 
 def print_template(body, wrap=None, split_macros=False, ext=""):
-    """Source of a template body.  ``wrap`` (source of a flag expression, e.g. "true" or "fl") puts every
-    top-level run of statements into ``{% autoescape wrap %}`` regions; block tags and extends stay outside
-    (block bodies are wrapped inside the tag), and with ``split_macros`` macro definitions stay outside too
-    with their *body* wrapped (so the macro is defined with autoescape off and called with autoescape on).
-    ``ext`` is appended to every referenced template name."""
+    """Source of a template body.  ``wrap`` (source of a flag expression, e.g. "true" or "fl") puts the whole body into
+    ONE ``{% autoescape wrap %}`` region (a region is a scope: names assigned in it are neither visible after it nor
+    exported, so region modes are only meaningful for programs without blocks / imports, see ``region_ok``).  With
+    ``split_macros`` the top-level macro definitions are hoisted in front of the region with their *bodies* wrapped
+    (the macro is then defined with autoescape off and called with autoescape on).  ``ext`` is appended to every
+    referenced template name."""
     o = Opts(wrap, ext)
     if wrap is None:
         return pbody(body, o)
-    out, run = [], []
-
-    def flush():
-        if run:
-            out.append(_region(wrap, "".join(run)))
-            del run[:]
-
+    head, rest = [], []
     for s in body:
-        if s[0] in ("extends", "block"):
-            flush()
-            out.append(ps(s, o))
-        elif s[0] == "macro" and split_macros:
-            flush()
-            out.append("{%% macro %s(%s) %%}%s{%% endmacro %%}" % (s[1], _params(s[2]), _wrapped(s[3], o)))
+        if s[0] == "macro" and split_macros:
+            head.append("{%% macro %s(%s) %%}%s{%% endmacro %%}" % (s[1], _params(s[2]), _wrapped(s[3], o)))
         else:
-            run.append(ps(s, o))
-    flush()
-    return "".join(out)
+            rest.append(ps(s, Opts(None, ext)))
+    return "".join(head) + _region(wrap, "".join(rest))
+
+
+def region_ok(templates):
+    """True when the program can be rendered inside autoescape regions without changing what its names mean: no block,
+    extends, import or from statement (those need top-level exports, and a region is a scope)."""
+    return not any(n[0] in ("block", "extends", "import", "from") and len(n) >= 2 and not isinstance(n[1], list) for n in walk(templates))
 
 
 def print_templates(templates, wrap=None, split_macros=False, ext=""):
@@ -438,7 +434,9 @@ class _Gen:
         return ["s", self.rich()]
 
     def int_e(self, lex, small=True):
-        k = self.weighted([("lit", 5), ("var", 3), ("len", 1), ("loop", 2 if lex.loop else 0)])
+        k = self.weighted([("lit", 5), ("var", 3), ("len", 1), ("loop", 2 if lex.loop else 0), ("sum", 1)])
+        if k == "sum":
+            return ["f", "sum", ["v", "rows"], [], [["attribute", ["s", "n"]]] + ([["start", ["i", 2]]] if self.chance(1, 2) else [])]
         if k == "lit":
             return ["i", self.i(0, 6 if small else 30)]
         if k == "var":
@@ -487,8 +485,7 @@ class _Gen:
 
     def callables(self, lex, hi):
         """Names (plain or alias-qualified) of visible macros whose result kind is hi / lo."""
-        out = [n for n, d in lex.macros.items() if d["hi"] == hi]
-        return out
+        return [n for n, d in lex.macros.items() if d["hi"] == hi and d["caller"] is None]
 
     def call(self, lex, name, with_caller=False):
         d = lex.macros[name]
@@ -519,6 +516,8 @@ class _Gen:
                 kw_mode = True
                 continue
             e = self.const_arg(code) if const else self.arg(lex, code, d)
+            if name == "replace" and pname == "old" and self.chance(3, 4):
+                e = ["s", self.pick(("z", "q", "a", " ", ";", "&", "<", "1", "zq", "t;"))]
             if kw_mode or (optional and self.chance(1, 4)):
                 kw_mode = True
                 kwargs.append([pname, e])
@@ -692,7 +691,9 @@ class _Gen:
             return ["f", "list", ["f", "map", inner, [["s", self.pick(("last", "first"))]], []], [], []]
         # xform: list -> list
         lst = self.list_e(lex, d - 1)
-        kk = self.pick(("sort", "unique", "reverse", "map", "mapargs", "select", "reject", "batch", "slice", "list", "slicing", "add", "mul"))
+        kk = self.pick(("sort", "unique", "reverse", "map", "mapargs", "select", "reject", "batch", "slice", "list", "slicing", "add", "mul", "sum"))
+        if kk == "sum":
+            return ["f", "sum", ["list", [lst, self.list_e(lex, 0)]], [], [["start", ["list", []]]]]
         if kk in ("sort", "unique"):
             args, kwargs = self.filter_args(lex, kk, 0)
             return ["f", "list", ["f", kk, lst, args, kwargs], [], []]
@@ -863,8 +864,8 @@ class _Gen:
         table = [("text", 3), ("out", 12), ("setlo", 3), ("sethi", 3 if lex.emit_hi or True else 0)]
         if deep:
             table += [("if", 3), ("for", 5), ("forhi", 2), ("with", 2), ("setblock", 5), ("filter", 5),
-                      ("macro", 6 if lex.toplevel else 0), ("callblock", 6 if any(d["caller"] is not None for d in lex.macros.values()) else 0),
-                      ("include", 3 if lex.has_inc else 0), ("rec", 2), ("rowloop", 2), ("dictloop", 2), ("joiner", 1), ("ns", 1)]
+                      ("macro", 6 if lex.toplevel else 0), ("callblock", 12 if any(d["caller"] is not None for d in lex.macros.values()) else 0),
+                      ("include", 6 if lex.has_inc else 0), ("rec", 2), ("rowloop", 2), ("dictloop", 2), ("joiner", 1), ("ns", 1)]
         k = self.weighted(table)
         if k == "text":
             return [self.text()]
@@ -960,7 +961,7 @@ class _Gen:
             name, body_hi, neutral_only = self.pick(("r0", "r1")), True, True
         else:
             name, body_hi, neutral_only = self.pick(("p0", "p1")), False, False
-        ch = self.chain(lex, neutral_only, const_args=True) if self.chance(1, 3) else []
+        ch = self.chain(lex, neutral_only, const_args=self.chance(1, 2)) if self.chance(1, 3) else []
         c = lex.child(toplevel=False, emit_hi=body_hi)
         s = ["setblock", name, ch, self.block(c, 1, 3)]
         pool = lex.hi if name[0] == "r" else lex.lo
@@ -999,17 +1000,28 @@ class _Gen:
         # a macro body never calls self.b() / super(): blocks call macros, so that could recurse
         c = lex.child(toplevel=False, emit_hi=result_hi, macro_kind=kind, caller=caller, loop=False, blocks=[], super_ok=False)
         c.rowvars = []
-        c.lo = [n for n in c.lo if n in LO_DATA or n in ("p0", "p1")] + [p for p, kp, _ in params if kp == "lo"]
-        c.hi = [n for n in c.hi if n in ("r0", "r1")] + [p for p, kp, _ in params if kp == "hi"]
+        # a macro body reads data and its parameters, not the template's set variables (closure reads are C03's business,
+        # and hoisting the definition out of a region must not change what the body sees)
+        c.lo = list(LO_DATA) + [p for p, kp, _ in params if kp == "lo"] * 3
+        c.hi = [p for p, kp, _ in params if kp == "hi"] * 3
         c.macros = {n: d for n, d in lex.macros.items() if n != name}
         body = self.block(c, 1, 4)
+        for p, kp, _ in params:
+            if self.chance(2, 3):  # a parameter is usually printed (bare or through one operation)
+                e = ["v", p]
+                if kp == "lo" and self.chance(1, 2):
+                    only = _Lex()
+                    only.lo = [p]
+                    e = self.lo_s(only.child(emit_hi=False), 1)
+                if kp == "lo" or result_hi:
+                    body.insert(self.i(0, len(body)), ["out", e])
         if caller is not None:
             body.insert(self.i(0, len(body)), ["out", self.caller_call(c)])
         desc = {"params": params, "caller": caller, "hi": result_hi, "callee": ["v", name]}
         lex.macros[name] = desc
         out = [["macro", name, [[p, defaults.get(p)] for p, _, _ in params], body]]
         if self.chance(4, 5):
-            if caller is not None and self.chance(3, 4):
+            if caller is not None:
                 out.append(self.callblock(lex, name))
             elif result_hi and not lex.emit_hi:
                 out.append(["set", "r0", self.call(lex, name)])
@@ -1034,7 +1046,10 @@ class _Gen:
         c.rowvars = []
         c.lo = c.lo + params
         call = self.call(lex, name)
-        stmt = ["callblock", params, call, self.block(c, 1, 3)]
+        body = self.block(c, 1, 3)
+        if params and self.chance(3, 4):
+            body.insert(self.i(0, len(body)), ["out", ["v", params[0]] if self.chance(1, 2) else ["f", self.pick(("upper", "trim", "indent", "string")), ["v", params[0]], [], []]])
+        stmt = ["callblock", params, call, body]
         if hi_body and not lex.emit_hi:
             return ["setblock", "r1", [], [stmt]]
         return stmt
@@ -1068,15 +1083,16 @@ class _Gen:
         main = _Lex()
         main.toplevel = True
         head = []
-        shape = self.weighted([("plain", 5), ("libs", 5), ("blocks", 2), ("extends", 3)])
-        if shape in ("libs", "extends") or self.chance(1, 4):
+        shape = self.weighted([("plain", 4), ("libs", 5), ("blocks", 2), ("extends", 4)])
+        if shape != "blocks" and self.chance(1, 2):
             inc = _Lex()
             templates["inc"] = [["text", "I:"]] + self.block(inc.child(emit_hi=self.neutral), 1, 3)
             main.has_inc = True
+        if shape in ("libs", "extends"):
             libbody, desc = self.library("lib")
             templates["lib"] = libbody
             how = self.weighted([("import", 3), ("from", 3), ("none", 1)])
-            ctx = self.pick((None, True, True, True, False))
+            ctx = self.pick((True, True, True, True, None, False))  # an import is "without context" by default
             if how == "import":
                 head.append(["import", "lib", "lib", ctx])
                 for n, d in desc["macros"].items():
@@ -1197,10 +1213,10 @@ def datas(draw):
         data[n] = [rich() for _ in range(t.pick((2, 1, 3, 2, 0)))]
     d0 = {}
     for key in XKEYS[:4]:
-        r = t.i(0, 5)
-        if r <= 3:
+        r = t.i(0, 6)
+        if r <= 4:
             d0[key] = rich()
-        elif r == 4:
+        elif r == 5:
             d0[key] = t.pick([None, 3, ""])
     data["d0"] = d0
     data["rows"] = [{"k": rich(), "n": t.i(0, 3), "g": t.pick(["a", "b<", "b<"])} for _ in range(t.i(2, 3))]
